@@ -24,6 +24,7 @@ TECHNIQUE = "static analysis of built MIR: acquire/release pairing over return/u
 
 
 def run(facts, tr, rep):
+    facts, tr = facts.inl, tr.inl        # path rules: private helpers (sync and async) are looked through by inlining
     _n_ops = check_no_panicking_time_arith(facts, tr, rep, "C07.NO-PANIC-ARITH", facts.crates["tower_resilience_bulkhead"].bodies)
     rep.note("panicking Instant/Duration operators examined in the crate: %d" % _n_ops)
     bh = BH(facts, tr, rep)
@@ -57,6 +58,9 @@ def run(facts, tr, rep):
     for i, blk in enumerate(b.blocks):
         for j, s in enumerate(blk["stmts"]):
             if s["k"] == "assign" and s["rv"]["k"] == "agg":
+                # wrapping the permit in Ok(..) / Some(..) / a tuple on its way to the binding is a transfer, not a store
+                if s["rv"].get("ak") in ("tuple",) or (s["rv"].get("ak") == "adt" and (s["rv"].get("def") or "").startswith(("core::result::Result", "core::option::Option", "core::task::poll::Poll", "core::ops::control_flow::ControlFlow"))):
+                    continue
                 for o in s["rv"]["ops"]:
                     pl = o.get("move")
                     if pl is not None and not pl["p"] and pl["l"] in pls:
@@ -86,36 +90,29 @@ def run(facts, tr, rep):
                 continue
             v = s["rv"]["variant"]
             nerr += 1
-            edges = dominating_edges(tr, b, i)
-            ok = False
-            how = ""
+            # evidence: which outcomes of the permit wait can reach this construction?  (decided by feasible
+            # reachability from the completion of each acquire await with the outcome assumed, so it does not matter
+            # how the result is matched, re-wrapped into another Result, or passed through `?` / a helper)
+            allowed_hit, bad_hit = [], []
             for (a, kind, ac, acqc) in acq:
-                V = await_node(b, a)
-                for e in edges:
-                    if e["kind"] != "enum":
-                        continue
-                    # which level of the result is being tested?
-                    n0 = e["node"]
-                    lvl = 0
-                    x = n0
-                    while x[0] in ("downcast", "field"):
-                        if x[0] == "downcast" and x[2] in ("Ok",):
-                            lvl += 1
-                        x = peel(x[1])
-                    if not derives(tr, n0, V, variants=None):
-                        continue
-                    if v == "Timeout" and kind == "timeout" and e["label"] == "Err" and lvl == 0:
-                        ok, how = True, "Elapsed edge of timeout(..).await"
-                    if v == "BulkheadFull" and e["label"] == "Err" and ((kind == "timeout" and lvl == 1) or (kind == "plain" and lvl == 0)):
-                        ok, how = True, "acquire-error edge"
+                outs = [("permit", ("Ok", ("Ok", None))), ("closed", ("Ok", ("Err", None))), ("elapsed", ("Err", None))] if kind == "timeout" else \
+                       [("permit", ("Ok", None)), ("closed", ("Err", None))]
+                for (nm, tag) in outs:
+                    if i in outcome_reach(g, a, tag):
+                        if (v == "Timeout" and nm == "elapsed") or (v == "BulkheadFull" and nm == "closed"):
+                            allowed_hit.append("%s of the %s wait" % (nm, kind))
+                        else:
+                            bad_hit.append("%s of the %s wait" % (nm, kind))
+            ok = bool(allowed_hit) and not bad_hit
+            how = ", ".join(sorted(set(allowed_hit))) if ok else ""
             r = g.reach([i], kinds=(N,))
             reach_inner = any(g.term(x)["k"] == "call" and Call(g, x, g.term(x)).def_ == "tower_service::Service::call"
                               and Call(g, x, g.term(x)).self_kind in ("param", "ref_param") for x in r)
             rep.ob("C07.ERRORS", skey(b, "%s#%d" % (v, nerr - 1)), ok and not reach_inner, g.where(i, j),
                    "%s is constructed only on the %s; no wrapped-service call follows" % (v, how) if ok and not reach_inner else
                    "%s is constructed %s" % (v, "and a wrapped-service call is reachable afterwards" if reach_inner else
-                                             "off its evidence edge (Timeout <-> Elapsed, BulkheadFull <-> acquire error)"))
-    rep.floor("C07.error-sites", nerr, 3)
+                                             "off its evidence (Timeout <-> the wait elapsed, BulkheadFull <-> the semaphore was closed): it is reachable from %s" % (sorted(set(bad_hit)) or "no outcome of a permit wait")))
+    rep.floor("C07.error-sites", nerr, 2)        # one per rejection kind (Timeout, BulkheadFull); duplicates may be merged
     # timeout duration is max_wait_duration
     for (a, kind, ac, acqc) in acq:
         if kind != "timeout":
